@@ -1283,7 +1283,19 @@ func (cx *evalCtx) pureCall(fn *ssa.Function, args []TV) (TV, error) {
 		}
 		st.env[p] = a
 	}
+	bound := false
+	for _, a := range args {
+		if strings.Contains(a.S, "q_") {
+			bound = true
+		}
+	}
+	if bound {
+		r.inlineMode++
+	}
 	exit, res := sub.execFunction(st)
+	if bound {
+		r.inlineMode--
+	}
 	if len(res) < 1 {
 		return TV{}, fmt.Errorf("pure call %s returns nothing", fn.Name())
 	}
